@@ -285,10 +285,19 @@ theorem detachProducts_skel {u u' : KState} {k : Key} (hn : Sk.Nodup u.skel)
 
 /-! ### `reattach` -/
 
+/-- A new creator accepted for a detached row, with the flag that goes with it: another, existing
+row of an accepted kind (the root row is never detached, so its own rule does not apply). -/
+theorem allowed_some_of_detached {s : KState} (hok : Sk.OK s.skel) {k c : Key} {ck : Option Key} {d : Bool}
+    (hrow : (k, ck, true) ∈ s.skel) (hall : s.creatorAllowed k (some c) d = true) (hd : d = false ↔ Att s.skel c) :
+    c ≠ k ∧ Has s.skel c ∧ creatorKindOk k.kind c.kind = true := by
+  rcases creatorAllowed_some hall with ⟨_, hck, hdf⟩ | ⟨_, h1, h2, h3⟩
+  · exact absurd (hck ▸ hd.1 hdf) (not_att_of_detached hok hrow)
+  · exact ⟨h1, h2, h3⟩
+
 theorem reattachCore_pq (L : SkStable Q) (k c : Key) (n : Node) (s s' : KState) (hf : s.find? k = some n)
     (hd : n.detached = true) (hp : PQ Q s) (h : s.reattachCore k c n = .ok s') : PQ Q s' := by
-  refine ⟨stable_depsKindOK.reattachCore_preserves k c n s s' hp.1 h, ?_⟩
   have hn := L.nodup hp
+  have hok := L.ok _ hp
   have hrow := find?_row hf
   rw [hd] at hrow
   unfold KState.reattachCore at h
@@ -298,7 +307,7 @@ theorem reattachCore_pq (L : SkStable Q) (k c : Key) (n : Node) (s s' : KState) 
   | ok s1 =>
     simp only [h1, bind, Except.bind] at h
     obtain ⟨hs1, hall⟩ := skel_setCreator h1
-    obtain ⟨hck, hhas, hkind⟩ := creatorAllowed_some hall
+    obtain ⟨hck, hhas, hkind⟩ := allowed_some_of_detached hok hrow hall (isDetached_false_iff hn c)
     have hn1 : Sk.Nodup s1.skel := by rw [hs1]; exact nodup_map _ (setRow_key _ _ _) hn
     cases h2 : s1.lostProduct n.creator with
     | error e => simp [h2] at h
@@ -307,12 +316,13 @@ theorem reattachCore_pq (L : SkStable Q) (k c : Key) (n : Node) (s s' : KState) 
       have hs2 : s2.skel = setRow k (some c) (s.isDetached c) s.skel := (lostProduct_skel _ hn1 h2).trans hs1
       have hn3 : Sk.Nodup (s2.setDetachedRec k (s.isDetached c)).skel := by
         rw [skel_setDetachedRec]; exact nodup_map _ (setD_key _ _) (by rw [hs2]; exact nodup_map _ (setRow_key _ _ _) hn)
+      unfold PQ
       rw [flagIfStep_skel k hn3 h, skel_setDetachedRec, hs2]
-      refine L.reattach _ k _ c _ _ hp.2 hrow hck hhas hkind (isDetached_false_iff hn c) ?_
+      refine L.reattach _ k _ c _ _ hp hrow hck hhas hkind (isDetached_false_iff hn c) ?_
       intro x
       rw [descendants_contains, hs2]
 
-theorem reattach_pq (L : SkStable Q) (k c : Key) : Preserves (PQ Q) (fun s => s.reattach k c) := by
+theorem reattach_preserves (L : SkStable Q) (k c : Key) : Preserves (PQ Q) (fun s => s.reattach k c) := by
   intro s s' hp h
   replace h : s.reattach k c = .ok s' := h
   unfold KState.reattach at h
@@ -336,26 +346,24 @@ def CreateSpec (l l' : List Tri) (k : Key) (creator : Option Key) (d : Bool) : P
   ((¬ Has l k ∧ l' = l ++ [(k, creator, d)]) ∨
    (∃ ck, (k, ck, true) ∈ l ∧ FitsRow l k creator d ∧ l' = cut k (setRow k creator d l)))
 
-theorem fitsRow_of_allowed {s : KState} (hn : Sk.Nodup s.skel) {k : Key} {creator : Option Key}
-    (hall : s.creatorAllowed k creator (s.creatorDetached creator) = true) :
+theorem fitsRow_of_allowed {s : KState} (hok : Sk.OK s.skel) {k : Key} {ck creator : Option Key}
+    (hrow : (k, ck, true) ∈ s.skel) (hall : s.creatorAllowed k creator (s.creatorDetached creator) = true) :
     FitsRow s.skel k creator (s.creatorDetached creator) ∧
       (∀ c, creator = some c → Has s.skel c ∧ creatorKindOk k.kind c.kind = true) := by
-  refine ⟨⟨?_, creatorDetached_false_iff hn creator⟩, ?_⟩
-  · intro c hc
+  have hn := hok.nodup
+  have key : ∀ c, creator = some c → c ≠ k ∧ Has s.skel c ∧ creatorKindOk k.kind c.kind = true := by
+    intro c hc
     subst hc
-    obtain ⟨h1, h2, _⟩ := creatorAllowed_some hall
-    exact ⟨h1, h2⟩
-  · intro c hc
-    subst hc
-    obtain ⟨_, h2, h3⟩ := creatorAllowed_some hall
-    exact ⟨h2, h3⟩
+    exact allowed_some_of_detached hok hrow hall (isDetached_false_iff hn c)
+  exact ⟨⟨fun c hc => ⟨(key c hc).1, (key c hc).2.1⟩, creatorDetached_false_iff hn creator⟩,
+    fun c hc => ⟨(key c hc).2.1, (key c hc).2.2⟩⟩
 
 theorem recycleCore_skel (L : SkStable Q) {s s' : KState} {k : Key} {n : Node} {creator : Option Key} {init : Init}
     (hi : InitOK init) (hp : PQ Q s) (hf : s.find? k = some n) (hd : n.detached = true)
     (h : s.recycleCore k n creator init = .ok s') :
     CreateSpec s.skel s'.skel k creator (s.creatorDetached creator) := by
   have hn := L.nodup hp
-  have hok := L.ok _ hp.2
+  have hok := L.ok _ hp
   have hrow := find?_row hf
   rw [hd] at hrow
   unfold KState.recycleCore at h
@@ -364,7 +372,7 @@ theorem recycleCore_skel (L : SkStable Q) {s s' : KState} {k : Key} {n : Node} {
   | ok s1 =>
     simp only [h1, bind, Except.bind] at h
     obtain ⟨hs1, hall⟩ := skel_setCreator h1
-    obtain ⟨hfits, hkind⟩ := fitsRow_of_allowed hn hall
+    obtain ⟨hfits, hkind⟩ := fitsRow_of_allowed hok hrow hall
     have hn1 : Sk.Nodup s1.skel := by rw [hs1]; exact nodup_map _ (setRow_key _ _ _) hn
     cases h2 : s1.lostProduct n.creator with
     | error e => simp [h2] at h
@@ -446,10 +454,10 @@ theorem att_of_createSpec {l l' : List Tri} (hok : Sk.OK l) {k : Key} {creator :
   · obtain ⟨_, h2, h3⟩ := ok_recycle hok hrow hfits
     exact ⟨h2, by rw [← hd]; exact h3⟩
 
-theorem create_pq (L : SkStable Q) (k : Key) (creator : Option Key) (init : Init) (hi : InitOK init) :
+theorem create_preserves (L : SkStable Q) (k : Key) (creator : Option Key) (init : Init) (hi : InitOK init) :
     Preserves (PQ Q) (fun s => s.create k creator init) := by
   intro s s' hp h
-  exact ⟨stable_depsKindOK.create_preserves k creator init hi s s' hp.1 h, L.q_of_createSpec hp.2 (L.create_skel hi hp h)⟩
+  exact L.q_of_createSpec hp (L.create_skel hi hp h)
 
 /-! ### `register_static_tree`: the hand-over -/
 
@@ -543,13 +551,13 @@ theorem hand_nil (tk : Key) (l : List Tri) : Sk.hand tk [] l = l := by
 theorem treeCreateHandOver_pq (L : SkStable Q) {s s1 : KState} {creator : Key} {path : String} {hs : List Key}
     (hp : PQ Q s) (hg : s.treeGuard creator path = .ok (some hs))
     (h1 : s.create (treeKey path) (some creator) .tree = .ok s1) : PQ Q (s1.handOver (treeKey path) hs) := by
-  have hp1 : PQ Q s1 := L.create_pq _ _ .tree trivial s s1 hp h1
-  refine ⟨stable_depsKindOK.handOver s1 _ hs hp1.1, ?_⟩
+  have hp1 : PQ Q s1 := L.create_preserves _ _ .tree trivial s s1 hp h1
+  unfold PQ at *
   rw [skel_handOver]
   cases hs with
-  | nil => rw [hand_nil]; exact hp1.2
+  | nil => rw [hand_nil]; exact hp1
   | cons h0 hs0 =>
-    have hok := L.ok _ hp.2
+    have hok := L.ok _ hp
     have hspec := treeGuard_spec hg
     have hcs := L.create_skel (init := .tree) trivial hp h1
     obtain ⟨hatt_ne, hatt_k⟩ := att_of_createSpec hok hcs
@@ -571,7 +579,7 @@ theorem treeCreateHandOver_pq (L : SkStable Q) {s s1 : KState} {creator : Key} {
       simp only [Option.some.injEq] at hc
       subst hc; exact hac
     have htk : Att s1.skel (treeKey path) := hatt_k.2 ⟨creator, rfl, hcreator⟩
-    refine L.hand _ _ _ hp1.2 htk rfl (fun h hh => (hrows h hh).1) ?_
+    refine L.hand _ _ _ hp1 htk rfl (fun h hh => (hrows h hh).1) ?_
     intro t ht hth
     obtain ⟨hkind, hrow⟩ := hrows t.1 hth
     have hne : t.1 ≠ treeKey path := by
@@ -581,13 +589,13 @@ theorem treeCreateHandOver_pq (L : SkStable Q) {s s1 : KState} {creator : Key} {
 
 /-! ### `Trellis.delete_detached`: one pass -/
 
-theorem deletePass_pq (L : SkStable Q) (s : KState) (r : KState × List Key × Bool) (hp : PQ Q s)
+theorem deletePass_preserves (L : SkStable Q) (s : KState) (r : KState × List Key × Bool) (hp : PQ Q s)
     (h : s.deletePass = .ok r) : PQ Q r.1 := by
-  refine ⟨stable_depsKindOK.deletePass_preserves s r hp.1 h, ?_⟩
   obtain ⟨s', cs, b⟩ := r
+  unfold PQ at *
   have hn := L.nodup hp
   rw [skel_deletePass h]
-  refine L.filter s.skel (fun x => (s.cands.map (·.key)).contains x) hp.2 ?_ ?_
+  refine L.filter s.skel (fun x => (s.cands.map (·.key)).contains x) hp ?_ ?_
   · intro t ht hD
     rw [List.contains_iff_mem, List.mem_map] at hD
     obtain ⟨a, ha, hak⟩ := hD
@@ -613,57 +621,34 @@ theorem deletePass_pq (L : SkStable Q) (s : KState) (r : KState × List Key × B
 
 /-! ## Composite operations (the proofs of `Lemmas/Stable.lean` with the new leaves) -/
 
-/-- Detaching a list of rows none of which is the root. -/
-theorem foldlM_detach_pq (L : SkStable Q) (ps : List Node) (hps : ∀ p ∈ ps, p.key ≠ rootKey) (s s' : KState)
-    (hp : PQ Q s) (h : ps.foldlM (fun s p => s.detach p.key) s = .ok s') : PQ Q s' :=
-  foldlM_inv_mem (PQ Q) (fun s (p : Node) => s.detach p.key) ps
-    (fun p hpm s1 s2 hp1 h1 => L.detach_pq p.key (hps p hpm) s1 s2 hp1 h1) s s' hp h
-
 theorem detachCreatedSteps_preserves (L : SkStable Q) (k : Key) : Preserves (PQ Q) (fun s => s.detachCreatedSteps k) := by
   intro s s' hp h
   replace h : s.detachCreatedSteps k = .ok s' := h
   unfold KState.detachCreatedSteps at h
-  refine L.foldlM_detach_pq _ ?_ s s' hp h
-  intro p hpm
-  exact product_ne_root (L.ok _ hp.2) (List.mem_filter.1 hpm).1
+  exact foldlM_preserves (PQ Q) _ _ (fun (p : Node) => L.detach_preserves p.key) s s' hp h
 
 theorem detachProductsWhere_preserves (L : SkStable Q) (k : Key) (p : Node → Bool) :
     Preserves (PQ Q) (fun s => s.detachProductsWhere k p) := by
   intro s s' hp h
   replace h : s.detachProductsWhere k p = .ok s' := h
   unfold KState.detachProductsWhere at h
-  refine L.foldlM_detach_pq _ ?_ s s' hp h
-  intro q hqm
-  exact product_ne_root (L.ok _ hp.2) (List.mem_filter.1 hqm).1
+  exact foldlM_preserves (PQ Q) _ _ (fun (n : Node) => L.detach_preserves n.key) s s' hp h
 
-theorem dropDynamicSink_preserves (L : SkStable Q) (step k : Key) (hk : k ≠ rootKey) :
-    Preserves (PQ Q) (fun s => s.dropDynamicSink step k) := by
+theorem dropDynamicSink_preserves (L : SkStable Q) (step k : Key) : Preserves (PQ Q) (fun s => s.dropDynamicSink step k) := by
   intro s s' hp h
   replace h : s.dropDynamicSink step k = .ok s' := h
   unfold KState.dropDynamicSink at h
-  exact L.detach_pq k hk _ s' (L.toFrame.deleteDeps s _ hp) h
+  exact L.detach_preserves k _ s' (L.toFrame.deleteDeps s _ hp) h
 
-/-- No dependency ends in the root. -/
-theorem dynamicSink_ne_root {s : KState} (hd : DepsKindOK s) {step k : Key} (hk : k ∈ s.dynamicSinks step) :
-    k ≠ rootKey := by
-  unfold KState.dynamicSinks at hk
-  obtain ⟨d, hdm, rfl⟩ := List.mem_map.1 hk
-  have := hd d (List.mem_filter.1 hdm).1
-  intro hr
-  rw [hr] at this
-  unfold depKindOk at this
-  cases hsrc : d.src.kind <;> simp [hsrc, rootKey] at this
-
-/-- `Step.reset_for_rerun` -/
+/-- `Step.reset_for_rerun` preserves every stable predicate. -/
 theorem resetForRerun_preserves (L : SkStable Q) (k : Key) : Preserves (PQ Q) (fun s => s.resetForRerun k) := by
   intro s s' hp h
   replace h : s.resetForRerun k = .ok s' := h
   unfold KState.resetForRerun at h
   dsimp only at h
-  have hp0 : PQ Q (s.dropDynamicInputs k) := L.toFrame.dropDynamicInputs s k hp
   refine bind_ok h (fun s2 h2 => ?_) ?_
-  · exact foldlM_inv_mem (PQ Q) (fun st t => st.dropDynamicSink k t) _
-      (fun t ht s1 s2 hp1 h1 => L.dropDynamicSink_preserves k t (dynamicSink_ne_root hp0.1 ht) s1 s2 hp1 h1) _ s2 hp0 h2
+  · exact foldlM_preserves (PQ Q) _ _ (fun t => L.dropDynamicSink_preserves k t) _ s2
+      (L.toFrame.dropDynamicInputs s k hp) h2
   · intro s2 s2' hp2 hh2
     refine bind_ok hh2 (fun s3 h3 => L.detachCreatedSteps_preserves k s2 s3 hp2 h3) ?_
     intro s3 s3' hp3 hh3
@@ -720,6 +705,12 @@ theorem markCompleted_preserves (L : SkStable Q) (cfg : KConfig) (k : Key) (nh :
       obtain ⟨rfl, _⟩ := h
       exact L.toFrame.completeSuccess_preserves cfg k hh s s1 hp h1
 
+theorem detachProducts_preserves (L : SkStable Q) (k : Key) : Preserves (PQ Q) (fun s => s.detachProducts k) := by
+  intro s s' hp h
+  replace h : s.detachProducts k = .ok s' := h
+  unfold KState.detachProducts at h
+  exact foldlM_preserves (PQ Q) _ _ (fun (p : Node) => L.detach_preserves p.key) s s' hp h
+
 theorem declareFile_preserves (L : SkStable Q) (cfg : KConfig) (creator : Key) (p : String) (st : FileState) :
     Preserves (PQ Q) (fun s => s.declareFile cfg creator p st) := by
   intro s s' hp h
@@ -733,7 +724,7 @@ theorem declareFile_preserves (L : SkStable Q) (cfg : KConfig) (creator : Key) (
     · rw [if_neg hd] at hg; cases hg
   · intro _ s2 hd hh
     refine bind_ok hh (fun s1 h1 => ?_) (L.toFrame.volatileSinkCheck_preserves p st)
-    exact L.create_pq _ _ (.file st) (declarable_noHash hd) s s1 hp h1
+    exact L.create_preserves _ _ (.file st) (declarable_noHash hd) s s1 hp h1
 
 theorem declareAll_preserves (L : SkStable Q) (cfg : KConfig) (todo : List (Key × String)) (st : FileState) :
     Preserves (PQ Q) (fun s => s.declareAll cfg todo st) := by
@@ -782,7 +773,7 @@ theorem adoptByTree_preserves (L : SkStable Q) (cfg : KConfig) (path : String) (
   refine bind_ok_gen h (fun _ => True) (fun _ _ => trivial) (fun r => (PQ Q) r.1) ?_
   intro _ r1 _ hh
   refine bind_ok_gen hh (PQ Q)
-    (fun s1 h1 => L.create_pq _ _ (.file .unconfirmed) (Or.inr (Or.inl rfl)) s s1 hp h1) (fun r => (PQ Q) r.1) ?_
+    (fun s1 h1 => L.create_preserves _ _ (.file .unconfirmed) (Or.inr (Or.inl rfl)) s s1 hp h1) (fun r => (PQ Q) r.1) ?_
   intro s1 r2 hp1 hh2
   simp only [pure, Except.pure, Except.ok.injEq] at hh2
   subst hh2; exact hp1
@@ -791,7 +782,7 @@ theorem placeholder_preserves (L : SkStable Q) (path : String) (s : KState) (r :
     (hp : (PQ Q) s) (h : s.placeholder path = .ok r) : (PQ Q) r.1 := by
   unfold KState.placeholder at h
   refine bind_ok_gen h (PQ Q)
-    (fun s1 h1 => L.create_pq _ _ (.file .undeclared) (Or.inl rfl) s s1 hp h1) (fun r => (PQ Q) r.1) ?_
+    (fun s1 h1 => L.create_preserves _ _ (.file .undeclared) (Or.inl rfl) s s1 hp h1) (fun r => (PQ Q) r.1) ?_
   intro s1 r2 hp1 hh2
   simp only [pure, Except.pure, Except.ok.injEq] at hh2
   subst hh2; exact hp1
@@ -886,7 +877,7 @@ theorem recycleStep_preserves (L : SkStable Q) (sk creator : Key) (d : StepDecl)
   intro s s' hp h
   replace h : s.recycleStep sk creator d n = .ok s' := h
   unfold KState.recycleStep at h
-  refine bind_ok h (fun s1 h1 => L.reattach_pq sk creator s s1 hp h1) ?_
+  refine bind_ok h (fun s1 h1 => L.reattach_preserves sk creator s s1 hp h1) ?_
   intro s1 s1' hp1 hh
   refine bind_ok hh (fun s3 h3 => L.toFrame.afterRecycle_preserves sk d n s1 s3 hp1 h3) ?_
   intro s3 s3' hp3 h4
@@ -897,7 +888,7 @@ theorem recycleStep_preserves (L : SkStable Q) (sk creator : Key) (d : StepDecl)
 theorem createStep_preserves (L : SkStable Q) (cfg : KConfig) (sk creator : Key) (d : StepDecl) (s : KState)
     (r : KState × List String) (hp : (PQ Q) s) (h : s.createStep cfg sk creator d = .ok r) : (PQ Q) r.1 := by
   unfold KState.createStep at h
-  refine bind_ok_gen h (PQ Q) (fun s1 h1 => L.create_pq _ _ (.step _) trivial s s1 hp h1) (fun r => (PQ Q) r.1) ?_
+  refine bind_ok_gen h (PQ Q) (fun s1 h1 => L.create_preserves _ _ (.step _) trivial s s1 hp h1) (fun r => (PQ Q) r.1) ?_
   intro s1 r1 hp1 hh
   have hp2 : (PQ Q) (s1.setStepExtras sk d) := L.toFrame.setStepExtras _ _ _ hp1
   refine bind_ok_gen hh (fun a => (PQ Q) a.1) (fun a ha => L.supplyFiles_preserves cfg sk d.inp true _ a hp2 ha)
@@ -1009,7 +1000,7 @@ theorem declareStaticRequest_preserves (L : SkStable Q) (cfg : KConfig) (creator
 theorem baseBody_preserves (L : SkStable Q) (x : Nat) (b : KState × List Key) (r : ForInStep (KState × List Key))
     (hp : (PQ Q) b.1) (h : baseBody x b = .ok r) : (PQ Q) r.value.1 := by
   unfold baseBody at h
-  refine bind_ok_gen h (fun a => (PQ Q) a.1) (fun a ha => L.deletePass_pq b.1 a hp ha) (fun r => (PQ Q) r.value.1) ?_
+  refine bind_ok_gen h (fun a => (PQ Q) a.1) (fun a ha => L.deletePass_preserves b.1 a hp ha) (fun r => (PQ Q) r.value.1) ?_
   intro a r' ha hh
   obtain ⟨st', cs, some_⟩ := a
   simp only at hh
@@ -1034,24 +1025,23 @@ theorem deleteDetachedBase_preserves (L : SkStable Q) : Preserves (PQ Q) (fun s 
     · intro a2 b2 ha2 hb2
       simp only [pure, Except.pure, Except.ok.injEq] at hb2; subst hb2; exact ha2
 
-theorem treeInner_preserves (L : SkStable Q) (f : Node) (hf : f.key ≠ rootKey) (st : KState) (r : ForInStep KState)
-    (hp : PQ Q st) (h : treeInner f st = .ok r) : PQ Q r.value := by
+theorem treeInner_preserves (L : SkStable Q) (f : Node) (st : KState) (r : ForInStep KState) (hp : (PQ Q) st)
+    (h : treeInner f st = .ok r) : (PQ Q) r.value := by
   unfold treeInner at h
   split at h
-  · refine bind_ok_gen h (PQ Q) (fun a ha => L.detach_pq f.key hf st a hp ha) (fun r => PQ Q r.value) ?_
+  · refine bind_ok_gen h (PQ Q) (fun a ha => L.detach_preserves f.key st a hp ha) (fun r => (PQ Q) r.value) ?_
     intro a r' ha hh
     simp only [pure, Except.pure, Except.ok.injEq] at hh; subst hh; exact ha
   · simp only [pure, Except.pure, Except.ok.injEq] at h; subst h; exact hp
 
-theorem treeOuter_preserves (L : SkStable Q) (t : Node) (st : KState) (r : ForInStep KState) (hp : PQ Q st)
-    (h : treeOuter t st = .ok r) : PQ Q r.value := by
+theorem treeOuter_preserves (L : SkStable Q) (t : Node) (st : KState) (r : ForInStep KState) (hp : (PQ Q) st)
+    (h : treeOuter t st = .ok r) : (PQ Q) r.value := by
   unfold treeOuter at h
   simp only at h
-  refine bind_ok_gen h (PQ Q) (fun a ha => ?_) (fun r => PQ Q r.value) ?_
+  refine bind_ok_gen h (PQ Q) (fun a ha => ?_) (fun r => (PQ Q) r.value) ?_
   · refine forIn_except_inv _ treeInner (PQ Q) st a hp ?_ ha
-    intro f hfm b r' hb hf
-    refine L.treeInner_preserves f ?_ b r' hb hf
-    exact product_ne_root (L.ok _ hp.2) (List.mem_mergeSort.1 hfm)
+    intro f _ b r' hb hf
+    exact L.treeInner_preserves f b r' hb hf
   · intro a r' ha hh
     simp only [pure, Except.pure, Except.ok.injEq] at hh; subst hh; exact ha
 
@@ -1069,9 +1059,9 @@ end SkStable
 
 /-! ## Requests and histories -/
 
-/-- Every accepted kernel request other than `detach` of the root keeps `PQ Q`. -/
+/-- Every accepted kernel request keeps `PQ Q`. -/
 theorem exec_skStable {Q : List Tri → Prop} (L : SkStable Q) (cfg : KConfig) (r : Req) (s : KState)
-    (res : KState × String) (hr : r ≠ .detach rootKey) (hp : PQ Q s) (h : s.exec cfg r = .ok res) : PQ Q res.1 := by
+    (res : KState × String) (hp : PQ Q s) (h : s.exec cfg r = .ok res) : PQ Q res.1 := by
   cases r with
   | define c d =>
     simp only [KState.exec] at h
@@ -1125,9 +1115,7 @@ theorem exec_skStable {Q : List Tri → Prop} (L : SkStable Q) (cfg : KConfig) (
   | markPending k => exact L.toFrame.markStepPending'_preserves k s _ hp (StableG.unitOut_ok h)
   | hold k => exact L.toFrame.hold_preserves k s _ hp (StableG.unitOut_ok h)
   | release k => exact L.toFrame.release_preserves k s _ hp (StableG.unitOut_ok h)
-  | detach k =>
-    have hk : k ≠ rootKey := fun hk => hr (by rw [hk])
-    exact L.detach_pq k hk s _ hp (StableG.unitOut_ok h)
+  | detach k => exact L.detach_preserves k s _ hp (StableG.unitOut_ok h)
   | revertOptional => exact L.toFrame.revertOptional_preserves s _ hp (StableG.unitOut_ok h)
   | deleteDetached => exact L.deleteDetached_preserves s _ hp (StableG.unitOut_ok h)
   | clearQueue =>
@@ -1141,24 +1129,20 @@ theorem exec_skStable {Q : List Tri → Prop} (L : SkStable Q) (cfg : KConfig) (
 
 /-- One transaction, accepted or rolled back. -/
 theorem step_skStable {Q : List Tri → Prop} (L : SkStable Q) (cfg : KConfig) (r : Req) (s : KState)
-    (hr : r ≠ .detach rootKey) (hp : PQ Q s) : PQ Q (s.step cfg r) := by
+    (hp : PQ Q s) : PQ Q (s.step cfg r) := by
   unfold KState.step
   cases h : s.exec cfg r with
   | error e => exact hp
-  | ok res => obtain ⟨s', out⟩ := res; exact exec_skStable L cfg r s (s', out) hr hp h
+  | ok res => obtain ⟨s', out⟩ := res; exact exec_skStable L cfg r s (s', out) hp h
 
-/-- A history without a `detach` request for the root (the only node `Node.detach` must not be
-called on; in the code the `CHECK` constraints of the `node` table reject it, the model has no
-such guard). -/
-def NoRootDetach (h : List (KConfig × Req)) : Prop := ∀ cr ∈ h, cr.2 ≠ Req.detach rootKey
-
-theorem run_skStable {Q : List Tri → Prop} (L : SkStable Q) (h : List (KConfig × Req)) (s : KState) (hp : PQ Q s)
-    (hh : NoRootDetach h) : PQ Q (s.run h) := by
+/-- Every history of accepted and rejected requests. -/
+theorem run_skStable {Q : List Tri → Prop} (L : SkStable Q) (h : List (KConfig × Req)) (s : KState) (hp : PQ Q s) :
+    PQ Q (s.run h) := by
   unfold KState.run
   induction h generalizing s with
   | nil => exact hp
   | cons x xs ih =>
     simp only [List.foldl_cons]
-    exact ih _ (step_skStable L x.1 x.2 s (hh x List.mem_cons_self) hp) (fun cr hcr => hh cr (List.mem_cons_of_mem _ hcr))
+    exact ih _ (step_skStable L x.1 x.2 s hp)
 
 end StepupModel.K
